@@ -52,6 +52,9 @@ func (x *g) genMultipart(sv *spec.Service, m *spec.Method, hasBody bool, verb st
 	if nparams > 0 {
 		num, den = 1, 5
 	}
+	if x.o.MultipartFew {
+		den *= 3
+	}
 	if !mr.Chance(num, den) {
 		return
 	}
